@@ -30,3 +30,12 @@ package common
 //@   loop 1
 //@     invariant 0 <= j && j <= 16 && j % 4 == 0
 //@     invariant forall w int :: 0 <= w && w < 4 ==> (4*w < j ==> ip[w] == ne32(_ip[4*w], _ip[4*w+1], _ip[4*w+2], _ip[4*w+3]))
+
+// value-level helpers used in the flow-tuple key (their bodies use unsafe / netip internals and are not
+// verified here: pure functions of their arguments, assumed)
+//@ func Htons
+//@   vpure
+//@   trusted
+//@ func ConvergeAddrPort
+//@   vpure
+//@   trusted
